@@ -679,42 +679,76 @@ func isParamValue(v ssa.Value, p *ssa.Parameter) bool {
 // around the computation and aliases the caller's storage.
 func ruleResultNotInput(c *Ctx, rule string, names []string) {
 	P := c.P
-	for _, n := range names {
-		fn := P.Func("slice", "", n)
-		if fn == nil {
-			continue
+	// nonEmptyParams(fn): the parameters fn can hand back while they may be non-empty
+	memo := map[*ssa.Function]map[int]token.Pos{}
+	var nonEmptyParams func(fn *ssa.Function, depth int) map[int]token.Pos
+	nonEmptyParams = func(fn *ssa.Function, depth int) map[int]token.Pos {
+		fn = origin(fn)
+		if r, ok := memo[fn]; ok {
+			return r
+		}
+		out := map[int]token.Pos{}
+		memo[fn] = out
+		if fn.Blocks == nil || depth > 3 {
+			return out
 		}
 		oc := newOrig(fn)
-		var ps []string
-		var at token.Pos
+		emptyAt := func(b *ssa.BasicBlock, pi int) bool {
+			for _, cm := range cmpsAt(b) {
+				if ln, ok := isBuiltinCall(cm.X, "len"); ok && isParamValue(ln.Call.Args[0], fn.Params[pi]) && isConstInt(cm.Y, 0) && (cm.Op == token.EQL || cm.Op == token.LEQ) {
+					return true
+				}
+			}
+			return false
+		}
 		allInstrs(fn, func(in ssa.Instruction) {
 			ret, ok := in.(*ssa.Return)
 			if !ok || len(ret.Results) == 0 {
 				return
 			}
-			o := oc.of(ret.Results[0])
-			for pi := range o.Params {
-				if pi >= len(fn.Params) {
-					continue
-				}
-				// handing back an input that is known to be empty is handing back nothing
-				empty := false
-				for _, cm := range cmpsAt(ret.Block()) {
-					if ln, ok := isBuiltinCall(cm.X, "len"); ok && isParamValue(ln.Call.Args[0], fn.Params[pi]) && isConstInt(cm.Y, 0) && (cm.Op == token.EQL || cm.Op == token.LEQ) {
-						empty = true
+			r := ret.Results[0]
+			if ct, ok := r.(*ssa.ChangeType); ok {
+				r = ct.X
+			}
+			if call, ok := r.(*ssa.Call); ok {
+				if g := origin(staticCallee(&call.Call)); g != nil && g.Blocks != nil && g.Pkg == fn.Pkg {
+					// the helper decides: only the parameters it can hand back non-empty matter
+					for gj := range nonEmptyParams(g, depth+1) {
+						if gj >= len(call.Call.Args) {
+							continue
+						}
+						for pi := range oc.of(call.Call.Args[gj]).Params {
+							if pi < len(fn.Params) && !emptyAt(ret.Block(), pi) {
+								out[pi] = ret.Pos()
+							}
+						}
 					}
+					return
 				}
-				if !empty {
-					ps = append(ps, fn.Params[pi].Name())
-					at = ret.Pos()
+			}
+			for pi := range oc.of(r).Params {
+				if pi < len(fn.Params) && !emptyAt(ret.Block(), pi) {
+					out[pi] = ret.Pos()
 				}
 			}
 		})
-		sort.Strings(ps)
-		pos := fn.Pos()
-		if at != token.NoPos {
-			pos = at
+		return out
+	}
+	for _, n := range names {
+		fn := P.Func("slice", "", n)
+		if fn == nil {
+			continue
 		}
+		bad := nonEmptyParams(fn, 0)
+		var ps []string
+		pos := fn.Pos()
+		for pi, p := range bad {
+			ps = append(ps, fn.Params[pi].Name())
+			if p != token.NoPos {
+				pos = p
+			}
+		}
+		sort.Strings(ps)
 		c.judge(len(ps) == 0, rule, "slice."+n+":result is not an input", pos, "a non-empty result never aliases a parameter", fmt.Sprintf("the function can return (a slice of) its own argument %v: a shortcut that answers with an input skips the computation for inputs it misjudges, and the result shares storage with the caller's slice", ps))
 	}
 }
